@@ -4,6 +4,7 @@ import (
 	"errors"
 	"fmt"
 	"math/rand"
+	"sync/atomic"
 
 	"github.com/Fantom-foundation/lachesis-base/gossip/dagordering"
 	"github.com/Fantom-foundation/lachesis-base/hash"
@@ -257,7 +258,7 @@ func c14shapes(n int, f func([][]int)) {
 }
 
 func runC14(c *ev.Ctx) {
-	c.Rule = "(1) exhaustive part: every DAG shape of 2..4 events (thorough: ..5; each event has <=3 parents among the earlier ones) pushed in EVERY order, plus seeded samples of 5- and 6-event shapes in every order; each (shape, order) is run plain, with Process failing at each single event, with Check failing at one event, with a duplicate copy inserted, and with limits 0,1,2 events or too few bytes; " +
+	c.Rule = "(1) exhaustive part: every DAG shape of 2..4 events (thorough: ..5; each event has <=3 parents among the earlier ones) pushed in EVERY order, plus seeded samples of 5- and 6-event shapes in every order, and of 3-5-event shapes in which one event names the same parent twice; each (shape, order) is run plain, with Process failing at each single event, with Check failing at one event, with a duplicate copy inserted, and with limits 0,1,2 events or too few bytes, and with limits exactly equal to the peak of waiting events and bytes of that order (nothing may be spilled); " +
 		"(2) random part: 30-200-event DAGs in random parents-first-violating orders with duplicates, random failing subsets and limits. Every pushed copy is a distinct pointer; oracle over the callback stream: Process only when all parents are connected, <=1 Process per copy and none after its Released, PushEvent's result, Total() within limits and equal to the number of unreleased copies after every push, IsBuffered consistent, every copy Released exactly once after Clear(), and with sufficient limits and no failures every event gets processed. " +
 		"non-trivial = distinct push sequences in which some copy waited in the buffer and a cascade of depth >= 2 completed it"
 	c.Assumptions = []string{"callbacks are the only connection to the outside: Exists/Get answer from the set of successfully processed events", "PushEvent is called from one goroutine here (C28 covers concurrency)"}
@@ -293,6 +294,24 @@ func runC14(c *ev.Ctx) {
 	}
 	for k := 0; k < c.Pick(25, 1500); k++ {
 		jobs = append(jobs, job{randShape(6), true})
+	}
+	// malformed children: one event names the same parent twice (the buffer sees events before the parents check has
+	// had its say; whatever Check answers, the copy is processed at most once and released once)
+	for k := 0; k < c.Pick(60, 1200); k++ {
+		ps := randShape(3 + k%3)
+		var cand []int
+		for i := range ps {
+			if len(ps[i]) > 0 {
+				cand = append(cand, i)
+			}
+		}
+		if len(cand) == 0 {
+			continue
+		}
+		i := cand[r0.Intn(len(cand))]
+		ps[i] = append(ps[i], ps[i][r0.Intn(len(ps[i]))])
+		jobs = append(jobs, job{ps, true})
+		c.Count("shapes_with_a_parent_named_twice", 1)
 	}
 	if c.Quick() {
 		c.Exhaustive = false
@@ -353,9 +372,21 @@ func runC14(c *ev.Ctx) {
 				m["why"] = why
 				c.Violation("event-of-a-parents-closed-set-never-processed", m)
 			}
+			// ... and once more with limits that are EXACTLY the peak of what this order ever keeps waiting (bytes and count):
+			// never exceeded, so nothing may be spilled
+			if pn, pb := c14peak(j.parents, order, evs); pn > 0 {
+				exact := dag.Metric{Num: idx.Event(pn), Size: pb}
+				if why := c14complete(j.parents, order, evs, exact); why != "" {
+					m := c14desc(variants[0])
+					m["why"], m["limit"] = why+" (limits equal to the peak of waiting events / bytes)", exact.String()
+					c.Violation("event-of-a-parents-closed-set-never-processed", m)
+				}
+				atomic.AddInt64(&c14peakRuns, 1)
+			}
 		})
 		c.Count("dag_shapes_pushed_in_every_order", 1)
 	})
+	c.Count("orders_run_with_limits_equal_to_the_peak", c14peakRuns)
 	c.Sample(map[string]interface{}{"kind": "exhaustive", "example_shape_parents": "[[] [0] [0 1] [2]]", "orders": "all 24", "variants_per_order": "plain, Process failing at each event, Check failing at one, duplicate copy, duplicate+failure, count limit 0..2, byte limit"})
 	// ---- (2) random large DAGs
 	nR := c.Pick(300, 10000)
@@ -429,6 +460,53 @@ func runC14(c *ev.Ctx) {
 }
 
 // c14complete: with sufficient limits and no failures every event must end up processed.
+var c14peakRuns int64
+
+// c14peak replays an order on paper: how many events, and how many bytes, wait for a parent at the worst moment?
+func c14peak(parents [][]int, order []int, evs []*cons.Ev) (peakN int, peakB uint64) {
+	connected := map[int]bool{}
+	waiting := map[int]bool{}
+	ready := func(i int) bool {
+		for _, p := range parents[i] {
+			if !connected[p] {
+				return false
+			}
+		}
+		return true
+	}
+	for _, n := range order {
+		if connected[n] || waiting[n] {
+			continue
+		}
+		if ready(n) {
+			connected[n] = true
+			for again := true; again; {
+				again = false
+				for w := range waiting {
+					if ready(w) {
+						delete(waiting, w)
+						connected[w] = true
+						again = true
+					}
+				}
+			}
+		} else {
+			waiting[n] = true
+		}
+		var b uint64
+		for w := range waiting {
+			b += uint64(evs[w].Size())
+		}
+		if len(waiting) > peakN {
+			peakN = len(waiting)
+		}
+		if b > peakB {
+			peakB = b
+		}
+	}
+	return
+}
+
 func c14complete(parents [][]int, order []int, evs []*cons.Ev, limit dag.Metric) string {
 	connected := map[hash.Event]bool{}
 	byID := map[hash.Event]int{}
